@@ -13,7 +13,7 @@ import time
 import traceback
 
 from . import c12, c13, engine, loader, proc, sweep
-from .common import ENGINE_VERSION, HarnessError, digest, rng_for
+from .common import ENGINE_VERSION, H, HarnessError, digest, rng_for
 
 _STATE = {}
 
@@ -131,6 +131,16 @@ def evaluate(spec):
             n0 = solos[0]["steps"]
             k = int(spec.pop("schedule_from_end"))
             spec["schedule"] = [[0, max(1, n0 - k)], [1, 1 << 40], [0, 1 << 40]]
+        if spec.get("schedule_at_shared_write") is not None:
+            # directed sweep case: pre-empt actor 0 around the j-th time it executes a
+            # line that writes state visible to other instances (none on a tree that
+            # keeps everything per instance: the case then degenerates to run-to-completion)
+            hj, delta = spec.pop("schedule_at_shared_write")
+            hits = (solos[0].get("sw_steps") or [[]])[0]
+            if hits:
+                spec["schedule"] = [[0, max(1, hits[int(hj) % len(hits)] + int(delta))], [1, 1 << 40], [0, 1 << 40]]
+            else:
+                spec["schedule"] = [[0, 1 << 40], [1, 1 << 40]]
         if spec.get("schedule_at_fraction") is not None:
             # dense sweep case: pre-empt actor 0 at the (i/Q)-th part of its own steps
             qi, q = spec.pop("schedule_at_fraction")
@@ -205,7 +215,13 @@ def _one_run(prop, seed, index, cfg, t0):
         rng = rng_for("run", prop, seed, index)
         mod = c12 if prop == "C12" else c13
         n_sweep = min(int(cfg.get("n_sweep", {}).get(prop, 0)), sweep.n_cases(prop))
-        if index < 2 * n_sweep and index % 2 == 0:
+        sw = sweep.sw_case_indices() if prop == "C13" and n_sweep else []
+        if sw and index % 4 == 2 and index // 4 < len(sw):
+            # the shared-write-directed cases first: both tiers run all of them
+            case = sw[(H("sw-start", seed) + index // 4) % len(sw)]
+            spec = sweep.spec_for(prop, case)
+            spec["sweep_case"] = case
+        elif index < 2 * n_sweep and index % 2 == 0:
             # systematic part: enumerated fault / pre-emption points (sim/sweep.py);
             # even run indices until the slice is used up, so that the seeded random
             # search (odd indices) starts at once
